@@ -138,6 +138,12 @@ Print Assumptions C08_PolyLine2D_roundtrip.
 Theorem C08_PolyElem_roundtrip : forall o, wf_PolyElem o -> reload "PolyElem" ser_PolyElem deser_PolyElem o = Some o.
 Proof. intros o H. apply roundtrip_of_reads; [reflexivity | apply good_PolyElem | apply PolyElem_reads; exact H]. Qed.
 Print Assumptions C08_PolyElem_roundtrip.
+Theorem C08_PolyLine2D_rewrite : forall o o', Forall wf_pt o ->
+  reload "PolyLine2D" ser_PolyLine2D deser_PolyLine2D o = Some o' -> file "PolyLine2D" ser_PolyLine2D o' = file "PolyLine2D" ser_PolyLine2D o.
+Proof. intros o o' H. apply rewrite_of_roundtrip. apply C08_PolyLine2D_roundtrip; exact H. Qed.
+Theorem C08_PolyElem_rewrite : forall o o', wf_PolyElem o ->
+  reload "PolyElem" ser_PolyElem deser_PolyElem o = Some o' -> file "PolyElem" ser_PolyElem o' = file "PolyElem" ser_PolyElem o.
+Proof. intros o o' H. apply rewrite_of_roundtrip. apply C08_PolyElem_roundtrip; exact H. Qed.
 Theorem C08_Polygons_roundtrip : forall pes, wf_Polygons pes -> reload "Polygon" ser_Polygons deser_Polygons pes = Some pes.
 Proof. intros o H. apply roundtrip_of_reads; [reflexivity | apply good_Polygons | apply Polygons_reads; exact H]. Qed.
 Print Assumptions C08_Polygons_roundtrip.
@@ -178,6 +184,11 @@ Proof. intros o o' H. apply rewrite_of_roundtrip. apply C08_Db_roundtrip; exact 
 Theorem C08_Db_locator_text : forall l, wf_lc l -> loc_identify (loc_name l) = Some l.
 Proof. exact loc_identify_name. Qed.
 Print Assumptions C08_Db_locator_text.
+(* sufficient condition for the names hypothesis of wf_Db: distinct names, none equal to a provisional name "New-k" *)
+Theorem C08_Db_names_replay : forall names,
+  NoDup names -> (forall w, In w names -> ~ In w (default_names (length names))) -> replay_names names = names.
+Proof. exact replay_names_id. Qed.
+Print Assumptions C08_Db_names_replay.
 (* "facies1" starts like "f": the column comes back as external drift f1 (same for gausfac -> g) *)
 Theorem C08_Db_refuted_facies :
   let o := {| db_nech := 1; db_names := [W "fac"]; db_locs := [Some (23%nat, 0)]; db_rows := [[Some 1%Q]] |} in
